@@ -196,3 +196,157 @@ fn c01_entry_upgrade_scalars_encode() {
     kani::cover!(true, "reached end");
 }
 
+
+// =============================================================================================
+// Reference header / leader / oplog image (JS `hypercore/lib/oplog.js` + `messages.js` layout)
+// =============================================================================================
+
+pub(crate) const DEFAULT_NAMESPACE: [u8; 32] = [
+    0x41, 0x44, 0xEE, 0xA5, 0x31, 0xE4, 0x83, 0xD5, 0x4E, 0x0C, 0x14, 0xF4, 0xCA, 0x68, 0xE0, 0x64,
+    0x4F, 0x35, 0x53, 0x43, 0xFF, 0x6F, 0xCB, 0x0F, 0x00, 0x52, 0x00, 0xE1, 0x2C, 0xD7, 0x47, 0xCB,
+];
+
+/// What a header means, independent of the crate's `Header` struct.
+#[derive(Clone, Copy)]
+pub(crate) struct RefHeader {
+    pub public: [u8; 32],
+    pub secret: Option<[u8; 32]>,
+    pub fork: u64,
+    pub length: u64,
+    /// (root hash, signature) present iff the tree has been upgraded at least once
+    pub signed: Option<([u8; 32], [u8; 64])>,
+    pub contiguous_length: u64,
+}
+
+/// header payload: version 1, flags (manifest|keyPair present = 2|4), key, manifest
+/// {version 0, hash blake2b=0, type signer=1, signer {ed25519=0, namespace, publicKey}},
+/// keyPair {publicKey buffer, secretKey buffer (sodium: secret||public, 64 bytes) or empty},
+/// userData [], tree {fork, length, rootHash buffer, signature buffer}, hints {reorgs [], contiguousLength}.
+pub(crate) fn ref_header<const C: usize>(w: &mut W<C>, h: &RefHeader) {
+    w.u8(1);
+    w.u8(2 | 4);
+    w.raw(&h.public);
+    w.u8(0);
+    w.u8(0);
+    w.u8(1);
+    w.u8(0);
+    w.raw(&DEFAULT_NAMESPACE);
+    w.raw(&h.public);
+    w.uint(32);
+    w.raw(&h.public);
+    match &h.secret {
+        Some(sk) => {
+            w.uint(64);
+            w.raw(sk);
+            w.raw(&h.public);
+        }
+        None => w.uint(0),
+    }
+    w.uint(0); // userData
+    w.uint(h.fork);
+    w.uint(h.length);
+    match &h.signed {
+        Some((root, sig)) => {
+            w.bytes(root);
+            w.bytes(sig);
+        }
+        None => {
+            w.uint(0);
+            w.uint(0);
+        }
+    }
+    w.uint(0); // reorgs
+    w.uint(h.contiguous_length);
+}
+
+/// Wrap the `n` payload bytes that were just written after `start + 8` with the 8-byte leader at
+/// `start`: LE32 crc32(bytes start+4 .. start+8+n), LE32 (n << 2 | partial << 1 | header_bit).
+pub(crate) fn ref_leader<const C: usize>(w: &mut W<C>, start: usize, n: usize, partial: bool, header_bit: bool) {
+    let info: u32 = ((n as u32) << 2) | (if partial { 2 } else { 0 }) | (if header_bit { 1 } else { 0 });
+    w.buf[start + 4] = info as u8;
+    w.buf[start + 5] = (info >> 8) as u8;
+    w.buf[start + 6] = (info >> 16) as u8;
+    w.buf[start + 7] = (info >> 24) as u8;
+    let crc = crc32_bitwise(&w.buf[start + 4..start + 8 + n]);
+    w.buf[start] = crc as u8;
+    w.buf[start + 1] = (crc >> 8) as u8;
+    w.buf[start + 2] = (crc >> 16) as u8;
+    w.buf[start + 3] = (crc >> 24) as u8;
+}
+
+/// Write leader + header at `at` (a slot offset). Returns the total size (8 + payload).
+pub(crate) fn ref_header_at<const C: usize>(w: &mut W<C>, at: usize, h: &RefHeader, header_bit: bool) -> usize {
+    w.pos = at + 8;
+    ref_header(w, h);
+    let n = w.pos - (at + 8);
+    ref_leader(w, at, n, false, header_bit);
+    8 + n
+}
+
+/// Write leader + entry at `at`. Returns the total size.
+pub(crate) fn ref_entry_at<const C: usize>(w: &mut W<C>, at: usize, e: &RefEntry<'_>, partial: bool, header_bit: bool) -> usize {
+    w.pos = at + 8;
+    ref_entry(w, e);
+    let n = w.pos - (at + 8);
+    ref_leader(w, at, n, partial, header_bit);
+    8 + n
+}
+
+pub(crate) fn kp_from(public: [u8; 32], secret: Option<[u8; 32]>) -> PartialKeypair {
+    PartialKeypair {
+        public: ed25519_dalek::VerifyingKey::from_bytes(&public).unwrap(),
+        secret: secret.map(|s| SigningKey::from_bytes(&s)),
+    }
+}
+
+pub(crate) fn header_matches(h: &Header, r: &RefHeader) -> bool {
+    let sk_ok = match (&h.key_pair.secret, &r.secret) {
+        (None, None) => true,
+        (Some(a), Some(b)) => a.to_bytes() == *b,
+        _ => false,
+    };
+    let tree_ok = match &r.signed {
+        Some((root, sig)) => *h.tree.root_hash == root[..] && *h.tree.signature == sig[..],
+        None => h.tree.root_hash.is_empty() && h.tree.signature.is_empty(),
+    };
+    h.key == r.public
+        && h.key_pair.public.to_bytes() == r.public
+        && h.manifest.signer.public_key == r.public
+        && h.manifest.signer.namespace == DEFAULT_NAMESPACE
+        && sk_ok
+        && h.user_data.is_empty()
+        && h.tree.fork == r.fork
+        && h.tree.length == r.length
+        && tree_ok
+        && h.hints.reorgs.is_empty()
+        && h.hints.contiguous_length == r.contiguous_length
+}
+
+// ------------------------------------------------------------------------ C06 leader / CRC
+
+/// Leader framing of the real code (`encode_with_leader`, real `crc32fast`) against the reference
+/// (bitwise CRC-32): a clear entry with symbolic fields (up to 19 payload bytes), both bits.
+#[kani::proof]
+#[kani::stub(std::fmt::format, stub_format)]
+#[kani::stub(std::string::String::from_utf8, stub_from_utf8)]
+fn c06_leader_entry() {
+    let (s8, l8): (u8, u8) = (kani::any(), kani::any());
+    kani::assume(s8 < 0xfd && l8 < 0xfd);
+    let bf = (kani::any(), s8 as u64, l8 as u64);
+    let e = mk_entry(vec![], None, Some(bf));
+    let partial: bool = kani::any();
+    let bit: bool = kani::any();
+    let mut buf = [0u8; 32];
+    let left = encode_with_leader(&e, partial, bit, &mut buf).unwrap().len();
+    let mut r = W::<32>::new();
+    let total = ref_entry_at(&mut r, 0, &RefEntry { nodes: &[], upgrade: None, bitfield: Some(bf) }, partial, bit);
+    assert!(left == 32 - total);
+    let j: usize = kani::any();
+    kani::assume(j < 32);
+    assert!(buf[j] == r.buf[j]);
+    // and the reader side
+    let out = Oplog::validate_leader(&r.buf[..total]).unwrap().unwrap();
+    assert!(out.header_bit == bit && out.partial_bit == partial);
+    assert!(out.state.len() == total - 8);
+    kani::cover!(true, "reached end");
+}
